@@ -113,7 +113,7 @@ fn negation_tree<T: Scalar>(kind: Kind, n: usize, alpha: &[f64], depth: usize, s
 pub fn run(ctx: &Ctx) -> CheckOutput {
     let quick = ctx.tier == Tier::Quick;
     let n_max = if quick { 5 } else { 10 };
-    let cap = if quick { 150_000 } else { 2_000_000 };
+    let cap = if quick { 150_000 } else { 1_000_000 };
     let mut jobs: Vec<Job> = vec![];
     for kind in [Kind::Rsi, Kind::MyRsi] {
         for n in 1..=n_max {
